@@ -103,12 +103,19 @@ def make_net(medium):
         def __init__(self):
             super().__init__()
             self.log = []
+            self.senderr = None      # k: the k-th send of this transfer raises can.CanError once (frame not sent)
+            self.nsend = 0
 
         def send_message(self, can_id, data, remote=False):
             d = bytes(data)
             if can_id != 0x601 or remote:
                 self.log.append(b"\x02" + d)
                 return
+            k, self.nsend = self.nsend, self.nsend + 1
+            if self.senderr is not None and k == self.senderr:
+                self.senderr = None
+                import can
+                raise can.CanError("transmit buffer full")
             self.log.append(b"\x00" + d)
             for r in medium.step(d):
                 self.log.append(b"\x01" + r)
@@ -160,6 +167,17 @@ def declared_type(x):
     return x.get("dt") if 1 <= x["sub"] <= 255 else None
 
 
+def _retry(call, x):
+    """a caller that repeats the same raw read()/write() once after a transient can.CanError"""
+    if x.get("senderr") is None:
+        return call()
+    import can
+    try:
+        return call()
+    except can.CanError:
+        return call()
+
+
 def _do_download(client, x):
     data = bytes(x["data"])
     if x["via"] == "download":
@@ -177,7 +195,7 @@ def _do_download(client, x):
                 fp.write(chunk.decode("ascii"))
             elif b == 0:
                 while chunk:
-                    n = fp.write(chunk)
+                    n = _retry(lambda: fp.write(chunk), x)
                     if not n:
                         raise Stuck("raw write accepted nothing")
                     chunk = chunk[n:]
@@ -202,7 +220,7 @@ def _do_upload(client, x):
         else:
             got = "" if text else b""
             while True:
-                c = fp.read(n)
+                c = _retry(lambda: fp.read(n), x)
                 if not c:
                     break
                 got += c
@@ -236,6 +254,7 @@ def impl(case):
         for fr in t.get("pre", []):
             net.notify(0x581, bytearray(fr), 0.0)
         net.log = []
+        net.nsend, net.senderr = 0, x.get("senderr")
         del REC[:]
         client.od = _od(x["idx"], x["sub"], x.get("odt"), x)
         failed = False
@@ -592,6 +611,9 @@ def one(kind, ts, store=None, full=True):
     return dict(kind=kind, store=store or [], full=full, ts=ts)
 
 
+SENDERR_DOWNLOADS = False      # download side: candidate defect reported (write() not repeatable after a send error)
+
+
 def gen_cases(rng, tier):
     cases = []
     lens = list(range(0, 65))
@@ -627,7 +649,7 @@ def gen_cases(rng, tier):
     for odt in ODTS:
         sz = FIXED.get(odt, 1)
         for n in sorted({0, 1, sz - 1, sz, sz + 1, 4, 5, 8, 9} - {-1}):
-            for st in (STYLES[0], STYLES[2], STYLES[3]):
+            for st in (STYLES[0], STYLES[1], STYLES[2], STYLES[3], STYLES[4], STYLES[7]):
                 mux = rng.choice(MUXES)
                 cases.append(one("ul_trunc", [T(ul_x(rng, "upload", mux, odt), st)],
                                  store=[[mux_key(*mux), rdata(rng, n)]]))
@@ -636,8 +658,8 @@ def gen_cases(rng, tier):
         for dt in (0x05, 0x06, 0x03, 0x10, 0x07, 0x15, 0x09, 0x0C):
             sz = FIXED.get(dt, 1)
             for sub in ((0, 1, 2, 5, 255) if shape != "rec" else (0, 1, 7)):
-                for n in sorted({sz, sz + 1, 4, 8}):
-                    for st in (STYLES[0], STYLES[2], STYLES[3]):
+                for n in sorted({sz, sz + 1, 4, 8, 9}):
+                    for st in (STYLES[0], STYLES[1], STYLES[2], STYLES[3], STYLES[4]):
                         idx = rng.choice(MUXES)[0]
                         x = ul_x(rng, "upload", (idx, sub))
                         x.update(shape=shape, dt=dt)
@@ -672,6 +694,26 @@ def gen_cases(rng, tier):
                 ts = [T(dl_x(rng, n, v, mux=mux), fault=[0, f]),
                       T(dl_x(rng, rng.choice((3, 9)), "download", mux=mux)), T(ul_x(rng, "upload", mux))]
                 cases.append(one("dl_refused_" + f["f"], ts, store=[[mux_key(*mux), rdata(rng, 2)]]))
+    # ---- one transmit of a segment request fails with a transient can.CanError (the frame never leaves), the caller
+    #      repeats the same raw read()/write(): the repeated frame must be the legal one for the still-current step and
+    #      the transfer completes with the exact data (implementation + oracle only: the model's bus never raises)
+    for n in (8, 14, 15, 22, 30):
+        nseg = (n + 6) // 7
+        for k in range(1, nseg + 1):
+            mux = rng.choice(MUXES)
+            for v, st in (("b0_r7", STYLES[0]), ("b0_r3", STYLES[1]), ("b0_r1", STYLES[3])):
+                x = ul_x(rng, v, mux)
+                x.update(senderr=k)
+                c = one("ul_senderr", [T(x, st), T(ul_x(rng, "upload", mux))], store=[[mux_key(*mux), rdata(rng, n)]])
+                c["model"] = False
+                cases.append(c)
+            if SENDERR_DOWNLOADS:
+                for v in ("b0_nosize", "b0_size"):
+                    x = dl_x(rng, n, v, mux=mux)
+                    x.update(senderr=k)
+                    c = one("dl_senderr", [T(x), T(ul_x(rng, "upload", mux))])
+                    c["model"] = False
+                    cases.append(c)
     # ---- back to back: 2..5 transfers on one client
     nseq = {"quick": 60, "thorough": 400, "search": 150}[tier]
     for _ in range(nseq):
